@@ -140,6 +140,7 @@ jcmd_jws_fmt(int argc, char *argv[])
     } else {
         if (!opt.detach)
             fprintf(opt.output, "\",");
+        json_object_del(opt.obj, "payload");
         json_dumpf(opt.obj, opt.output,
                    JSON_EMBED | JSON_COMPACT | JSON_SORT_KEYS);
         fprintf(opt.output, "}");
